@@ -1239,7 +1239,55 @@ func binDeterminism(o corrOpts, sum *res.Summary, r *rng.R, bin string) {
 			}
 		}
 	}
-	sum.Rule = "the real binary on a module of generated programs + the all-codes module: normalised -json (position, code, full message text) byte-compared across repeated runs, -debug=p (sequential), GOMAXPROCS 1/16, permuted package arguments, and each program alone vs inside the full run; on a mismatch (and in thorough) a -race build replays the run (search support only); non-trivial = variant runs equal to the reference"
+	// import-order stress: eight small packages that each import a package with very large facts BEFORE a small
+	// annotated one (import declarations not in path order), carry an @implements annotation and violate the small
+	// package's annotations. All five checkers of a package walk its import list at the same time; the sequential run
+	// is the reference for repeated parallel runs.
+	{
+		sdir := scratchDir("detstress")
+		defer os.RemoveAll(sdir)
+		os.WriteFile(filepath.Join(sdir, "go.mod"), []byte("module exp\n\ngo 1.25\n"), 0o644)
+		os.MkdirAll(filepath.Join(sdir, "alib"), 0o755)
+		os.WriteFile(filepath.Join(sdir, "alib", "alib.go"), []byte("package alib\n\ntype Doer interface{ Do() }\n\n// @immutable\n// @constructor New\ntype T struct {\n\tN int\n\t// @mutable\n\tHits int\n}\n\nfunc New() *T { return &T{} }\n\n// @testonly\nfunc Mock() *T { return New() }\n\n// @packageonly\nfunc Internal() {}\n"), 0o644)
+		var z strings.Builder
+		z.WriteString("package zlib\n\ntype Namer interface{ Name() string }\n\n")
+		nz := 2000
+		for i := 0; i < nz; i++ {
+			fmt.Fprintf(&z, "// @immutable\n// @constructor NewR%d\n// @implements Namer\ntype R%d struct{ n string }\n\nfunc NewR%d() *R%d { return &R%d{n: \"r\"} }\n\nfunc (r R%d) Name() string { return r.n }\n\n// @testonly\nfunc MockR%d() *R%d { return NewR%d() }\n\n// @packageonly\nfunc internalR%d() {}\n\n", i, i, i, i, i, i, i, i, i, i)
+		}
+		os.MkdirAll(filepath.Join(sdir, "zlib"), 0o755)
+		os.WriteFile(filepath.Join(sdir, "zlib", "zlib.go"), []byte(z.String()), 0o644)
+		var spats []string
+		for n := 1; n <= 8; n++ {
+			app := fmt.Sprintf("package app%d\n\nimport (\n\t\"exp/zlib\"\n\n\t\"exp/alib\"\n)\n\n// @implements alib.Doer\ntype Job struct{ r *zlib.R%d }\n\nfunc (Job) Do() {}\n\nfunc Run() {\n\tt := alib.New()\n\tt.N = %d\n\tt.Hits++\n\t_ = alib.T{}\n\t_ = alib.Mock()\n\talib.Internal()\n\t_ = zlib.R%d{}\n}\n", n, n, n, n)
+			os.MkdirAll(filepath.Join(sdir, fmt.Sprintf("app%d", n)), 0o755)
+			os.WriteFile(filepath.Join(sdir, fmt.Sprintf("app%d", n), "app.go"), []byte(app), 0o644)
+			spats = append(spats, fmt.Sprintf("./app%d", n))
+		}
+		seq := runStandalone(bin, sdir, []string{"-debug=p"}, nil, spats...)
+		seqN := norm(seq)
+		sum.AddN("import-order-stress-diagnostics", len(seq.diags))
+		k := 10
+		if o.tier == "thorough" {
+			k = 40
+		}
+		for i := 0; i < k; i++ {
+			par := runStandalone(bin, sdir, nil, nil, spats...)
+			sum.Evaluations++
+			sum.Count("import-order-stress")
+			if c := crashed(par); c != "" {
+				sum.Disagree(res.Disagreement{Kind: "panic", Input: "import-order stress, parallel run", Impl: c, Clause: "C10 / C11"})
+				break
+			}
+			if got := norm(par); got != seqN {
+				a, b := diffSets(strings.Split(seqN, "\n"), strings.Split(got, "\n"))
+				sum.Disagree(res.Disagreement{Kind: "impl-vs-spec", Input: fmt.Sprintf("determinism seed=%d import-order stress: parallel run %d against the sequential run (-debug=p) of the same tree", o.seed, i), Impl: fmt.Sprintf("%d diagnostics", len(par.diags)), Model: fmt.Sprintf("%d diagnostics (sequential run)", len(seq.diags)),
+					Clause: "C11: identical diagnostics and texts across sequential and parallel analysis", Details: fmt.Sprintf("only sequential: %.300v; only parallel: %.300v", a, b)})
+				break
+			}
+		}
+	}
+	sum.Rule = "the real binary on a module of generated programs + the all-codes module: normalised -json (position, code, full message text) byte-compared across repeated runs, -debug=p (sequential), GOMAXPROCS 1/16, permuted package arguments, and each program alone vs inside the full run; an import-order stress module (packages importing a package with very large facts ahead of a small annotated one, with @implements) run sequentially once and in parallel repeatedly; a -race build replays runs (search support only); non-trivial = variant runs equal to the reference"
 }
 
 // ---------------------------------------------------------------- C10 (drivers part)
